@@ -947,6 +947,20 @@ func (e flattenEngine) c07(res *runner.Result, c *runner.Case, files map[string]
 	orders := map[string]bool{}
 	okRuns := 0
 	changed := false
+	failClass := ""
+	classOf := func(run *flatRun) string {
+		msg := ""
+		if run.Err != nil {
+			msg = run.Err.Error()
+		} else if run.Panic != nil {
+			msg = "panic: " + run.Panic.Msg
+		}
+		c := runner.MsgClass(msg)
+		if strings.Contains(msg, "OAIGen") {
+			c += ":oaigen"
+		}
+		return c
+	}
 	for k := 0; k < P; k++ {
 		fs := files
 		if k > 0 {
@@ -959,14 +973,15 @@ func (e flattenEngine) c07(res *runner.Result, c *runner.Case, files map[string]
 			if !run.OK() {
 				res.Ev("unsuccessful_calls", 1)
 				if okRuns > 0 {
-					res.Violate("nondeterministic", "nondeterministic:error-vs-success:"+modeOf(o), o.Name, fmt.Sprintf("permutation %d repeat %d fails although an earlier run of the same bundle succeeded: %v %v", k, i, run.Err, run.Panic))
+					res.Violate("nondeterministic", "nondeterministic:error-vs-success:"+modeOf(o)+":"+classOf(run), o.Name, fmt.Sprintf("permutation %d repeat %d fails although an earlier run of the same bundle succeeded: %v %v", k, i, run.Err, run.Panic))
 					return
 				}
+				failClass = classOf(run)
 				continue
 			}
 			res.Ev("ok_calls", 1)
 			if okRuns == 0 && (k > 0 || i > 0) {
-				res.Violate("nondeterministic", "nondeterministic:error-vs-success:"+modeOf(o), o.Name, "an earlier run of the same bundle failed, this one succeeds")
+				res.Violate("nondeterministic", "nondeterministic:error-vs-success:"+modeOf(o)+":"+failClass, o.Name, "an earlier run of the same bundle failed ("+failClass+"), this one succeeds")
 				return
 			}
 			okRuns++
